@@ -34,7 +34,7 @@ PROPS = {
     },
     "C04": {
         "suites": [("apply", 300, 3000), ("proc", 100, 1000), ("kv", 100, 600)],
-        "title": "frontier monotonicity of apply_delta / cluster apply for every grammar-valid delta; fresh versions of local writes; copy invariant inductive",
+        "title": "frontier monotonicity of apply_delta / cluster apply for every grammar-valid delta; fresh versions of local writes; copy invariant inductive; along every step of the global relation from every reachable state no copy's frontier decreases (removal only by liveness evaluation)",
     },
     "C05": {
         "suites": [("proc", 250, 2500)],
